@@ -16,8 +16,7 @@ RULE = (
     "so it is not generated here), a random time step, a state x = x_ref + delta (delta scaled per "
     "variable, amplitude 1e-2..0.5) and a random previous-time-step state; the same model instance is taken through 1-3 "
     "such states in sequence, each checked, in half of these cases with an evaluation that raises (size mismatch after a "
-    "variable has been parsed, at yet another state) in between; the thorough tier adds a 400 / 600-cell fracture (operators with thousands of "
-    "stored entries). Discretizations are brought up to date at x "
+    "variable has been parsed, at yet another state) in between. Discretizations are brought up to date at x "
     "(before_nonlinear_iteration, i.e. upwind directions follow the state) and then held fixed. Oracle: for a random "
     "direction v, J v = -(b(x+hv) - b(x-hv)) / 2h (b = assembled rhs = -residual), best of h in {1e-5,1e-6,1e-7}, "
     "relative error < 1e-6 per equation block (assembled_equation_indices). A block where central differences disagree "
@@ -39,7 +38,7 @@ REQUIRED = {"states2": 0.15, "states3": 0.15, "failed-evaluation-between-states"
 def strategy(tier):
     if tier == "quick":
         return model_spec(dims=(2, 2, 2, 2, 2, 3), simplex=False, nonmatching=True, units=True, adflux=("tpfa",))
-    return model_spec(dims=(2, 2, 3), simplex=True, nonmatching=True, units=True, long=12, adflux=("tpfa",))
+    return model_spec(dims=(2, 2, 3), simplex=True, nonmatching=True, units=True, adflux=("tpfa",))
 
 
 def warmup():
